@@ -348,9 +348,21 @@ class Ctx:
             self.violations.append((path, tail))
 
     # -- proofs
+    def safe_regenerate(self, fn):
+        """run a property's translators; when one fails (the source no longer has the shape the model is generated from) remember
+        the failure, keep the last generated model and let the run go on searching for a failing input with it: prove() will
+        re-raise the failure as the broken obligation"""
+        try:
+            return fn(self)
+        except CoqFailure as e:
+            self.regen_err = e
+            return None
+
     def prove(self, prop_rel, extra_targets=()):
         """Build Props/<pid>.vo (and its whole dependency closure) and record
         obligations / assumptions.  Raises CoqFailure when a proof breaks."""
+        if getattr(self, 'regen_err', None) is not None:
+            raise self.regen_err
         bad = grep_gate()
         if bad:
             raise CoqFailure('grep gate', '\n'.join(bad))
